@@ -127,6 +127,13 @@ static void names(void)
 	size_t i;
 	for (i = 0; i < NN; i++) {
 		size_t k = V_IN_RANGE("name", 0, 2);
+#ifdef NUL_NAMES
+		/* three-byte names that differ only behind an embedded NUL byte */
+		nd[i].ident._charset = MPT_CHARSET(UTF8);
+		nd[i].ident._len = 4;
+		nd[i].ident._val[0] = 0; nd[i].ident._val[1] = 'b'; nd[i].ident._val[2] = (k == 0) ? 'c' : (k == 1) ? '#' : 'd'; nd[i].ident._val[3] = 0;
+		continue;
+#endif
 		nd[i].ident._charset = MPT_CHARSET(UTF8);
 		nd[i].ident._len = (k == 2) ? 1 : 2;
 		nd[i].ident._val[0] = (k == 0) ? 'a' : (k == 1) ? 'b' : 0;
@@ -223,10 +230,20 @@ void harness(void)
 	const MPT_STRUCT(node) *p;
 	names();
 	V_ASSUME(pos > 0);
+#ifdef NUL_NAMES
+	{
+	static const char bn[3][4] = { { 0, 'b', 'c', 0 }, { 0, 'b', '#', 0 }, { 0, 'b', 'd', 0 } };
+	r = mpt_node_locate(na, pos, bn[k], 3, -1);
+	for (p = na, i = 0; p && i < NN; i++, p = p->next) {
+		if (p->ident._len == 4 && !memcmp(p->ident._val, bn[k], 3) && ++cnt == (size_t) pos) { exp = (MPT_STRUCT(node) *) p; break; }
+	}
+	}
+#else
 	r = mpt_node_locate(na, pos, nm[k], (int) strlen(nm[k]), -1);
 	for (p = na, i = 0; p && i < NN; i++, p = p->next) {
 		if (mpt_identifier_compare(&p->ident, nm[k], -1) == 0 && ++cnt == (size_t) pos) { exp = (MPT_STRUCT(node) *) p; break; }
 	}
+#endif
 	V_ASSERT(r == exp, "locate returns the pos-th sibling with that name");
 	}
 #elif OP == OP_POS
